@@ -21,7 +21,7 @@ ENGINES = {
     "C12": ("eng_charset", "proof"),
     "C10": ("eng_front", "proof"),
     "C11": ("eng_front", "proof"),
-    "C17": ("eng_examples", "other"),
+    "C17": ("eng_examples", "proof"),
     "C01": ("eng_core", "proof"),
     "C02": ("eng_core", "proof"),
     "C03": ("eng_core", "proof"),
